@@ -1,9 +1,154 @@
-(* Props/C06.v -- property theorems for C06.  Only statements, each closed by [exact]. *)
+(* Props/C06.v -- property theorems for C06 (the strip stream keeps the Write
+   contract under short writes and errors).  Only statements, each closed by [exact].
+
+   Vocabulary (Proofs/Stream.v, Proofs/StreamIo.v):
+     kept s bs / after s bs : the output / the final state of the byte-at-a-time
+       strip machine [mrun] started in stream state [s] (see c06_kept_after_def);
+     full_accept c : the inner call [c] took its whole buffer;
+     benign c      : [c] is an accept or an `Interrupted` failure (what std's
+       write_all absorbs);
+     err_calls cs k: [cs] = benign calls followed by a LAST call answered `Fail k`,
+       or accepting 0 bytes of a non-empty buffer with k = WriteZero. *)
 From Coq Require Import NArith List Bool.
-From AV Require Import Generated.Table Spec.Vt Proofs.TableFacts.
+From AV Require Import Generated.Table Spec.Io Spec.Strip Model.Base Model.Utf8parse Model.Parser Model.Strip
+  Model.Stream Proofs.TableFacts Proofs.StripMachine Proofs.StripSim Proofs.StreamIo Proofs.Stream.
 Import ListNotations.
 Local Open Scope N_scope.
 
+(* [kept] and [after] are the components of the machine run *)
+Theorem c06_kept_after_def :
+  forall s bs, bytes_ok bs ->
+  mrun (sb_state s) (sb_u s) bs = Some (sb_state (after s bs), sb_u (after s bs), kept s bs).
+Proof. exact kept_after_def. Qed.
+
+(* from a fresh stream the machine keeps exactly what the specification keeps *)
+Theorem c06_kept_new_is_spec :
+  forall bs, bytes_ok bs -> kept sb_new bs = spec_strip bs.
+Proof. exact kept_new_is_spec. Qed.
+
+(* 1. one call of write, for every stream state, buffer and inner-writer script:
+   it never panics and never answers Ok(()); Ok n: n <= len, the inner writer got
+   exactly the kept bytes of buf[..n], and the state is EXACTLY the machine state
+   after buf[..n]; Err k: exactly one inner write was made in this call, it was
+   answered `Fail k`, nothing was delivered and the state is unchanged *)
+Theorem c06_write_refines :
+  forall s buf w,
+  bytes_ok buf -> Inv (sb_state s) (sb_u s) ->
+  (exists s' w' r, ss_write s buf w = Some (s', w', r) /\ r <> ROk) /\
+  (forall s' w' n, ss_write s buf w = Some (s', w', ROkN n) ->
+     n <= N.of_nat (length buf) /\
+     w_received w' = w_received w ++ kept s (firstn (N.to_nat n) buf) /\
+     s' = after s (firstn (N.to_nat n) buf)) /\
+  (forall s' w' k, ss_write s buf w = Some (s', w', RErr k) ->
+     s' = s /\ w_received w' = w_received w /\
+     exists piece rest, piece <> [] /\ w_script w = Fail k :: rest /\ w_script w' = rest /\
+                        w_calls w' = w_calls w ++ [CWrite piece (inr k)]).
+Proof. exact write_refines. Qed.
+
+(* 2. the standard caller protocol (resubmit the tail, retry on Interrupted), any
+   fuel, state, script: what was delivered is a prefix p of the kept bytes, all of
+   them (and the machine's final state) when the protocol ends with Ok *)
+Theorem c06_protocol_delivers :
+  forall fuel s w buf s' w' r,
+  bytes_ok buf -> Inv (sb_state s) (sb_u s) ->
+  ss_drive fuel s w buf = Some (s', w', r) ->
+  exists p q, kept s buf = p ++ q /\ w_received w' = w_received w ++ p /\
+              (r = ROk -> q = [] /\ s' = after s buf) /\ (forall n, r <> ROkN n).
+Proof. exact protocol_delivers. Qed.
+
+(* the fuel [length script + length buf + 1] always suffices *)
+Theorem c06_protocol_fuel_suffices :
+  forall fuel s w buf,
+  bytes_ok buf -> Inv (sb_state s) (sb_u s) ->
+  (length (w_script w) + length buf < fuel)%nat ->
+  exists x, ss_drive fuel s w buf = Some x.
+Proof. exact protocol_fuel_suffices. Qed.
+
+(* from a fresh stream, in terms of the specification: the protocol always
+   terminates, the inner writer holds a prefix of spec_strip input (nothing lost,
+   duplicated, reordered, nothing invisible leaked), all of it on Ok *)
+Theorem c06_protocol_delivers_spec_strip :
+  forall script buf, bytes_ok buf ->
+  exists s' w' r, ss_drive_all script buf = Some (s', w', r) /\
+    (exists q, spec_strip buf = w_received w' ++ q /\ (r = ROk -> q = [])) /\
+    (forall n, r <> ROkN n).
+Proof. exact protocol_delivers_spec_strip. Qed.
+
+(* 3. write_all: never panics; Ok: all kept bytes delivered, state = machine state;
+   Err k: a prefix delivered, and k is the inner writer's last answer (or WriteZero) *)
+Theorem c06_write_all_refines :
+  forall s buf w,
+  bytes_ok buf -> Inv (sb_state s) (sb_u s) ->
+  (exists s' w' r, ss_write_all s buf w = Some (s', w', r) /\ forall n, r <> ROkN n) /\
+  (forall s' w', ss_write_all s buf w = Some (s', w', ROk) ->
+     w_received w' = w_received w ++ kept s buf /\ s' = after s buf) /\
+  (forall s' w' k, ss_write_all s buf w = Some (s', w', RErr k) ->
+     (exists p q, kept s buf = p ++ q /\ w_received w' = w_received w ++ p) /\
+     exists cs, w_calls w' = w_calls w ++ cs /\ err_calls cs k).
+Proof. exact write_all_refines. Qed.
+
+(* formatted writes, for every fragmentation of the formatted text *)
+Theorem c06_write_fmt_refines :
+  forall s frags w,
+  bytes_ok (concat frags) -> Inv (sb_state s) (sb_u s) ->
+  (exists s' w' r, ss_write_fmt s frags w = Some (s', w', r) /\ forall n, r <> ROkN n) /\
+  (forall s' w', ss_write_fmt s frags w = Some (s', w', ROk) ->
+     w_received w' = w_received w ++ kept s (concat frags) /\ s' = after s (concat frags)) /\
+  (forall s' w' k, ss_write_fmt s frags w = Some (s', w', RErr k) ->
+     (exists p q, kept s (concat frags) = p ++ q /\ w_received w' = w_received w ++ p) /\
+     exists cs, w_calls w' = w_calls w ++ cs /\ err_calls cs k).
+Proof. exact write_fmt_refines. Qed.
+
+(* write_vectored is write of the first non-empty buffer (c06_write_refines applies) *)
+Theorem c06_vectored_refines :
+  forall s w bufs,
+  ss_op s w (OWriteVectored bufs) = ss_write s (first_nonempty bufs) w /\
+  ((first_nonempty bufs = [] /\ Forall (fun b => b = []) bufs) \/
+   (exists pre rest, bufs = pre ++ first_nonempty bufs :: rest /\
+                     Forall (fun b => b = []) pre /\ first_nonempty bufs <> [])).
+Proof. exact vectored_refines. Qed.
+
+(* an Err carries a kind the inner writer produced in its last call (or WriteZero on
+   `Accept 0`); a write answering Ok(len) saw only full accepts; write_all / write_fmt
+   answering Ok saw no failure except the Interrupted ones std's write_all retries *)
+Theorem c06_error_kind_preserved :
+  forall s w,
+  Inv (sb_state s) (sb_u s) ->
+  (forall buf s' w' k, bytes_ok buf -> ss_write s buf w = Some (s', w', RErr k) ->
+     exists piece, w_calls w' = w_calls w ++ [CWrite piece (inr k)]) /\
+  (forall buf s' w' k, bytes_ok buf -> ss_write_all s buf w = Some (s', w', RErr k) ->
+     exists cs, w_calls w' = w_calls w ++ cs /\ err_calls cs k) /\
+  (forall frags s' w' k, bytes_ok (concat frags) -> ss_write_fmt s frags w = Some (s', w', RErr k) ->
+     exists cs, w_calls w' = w_calls w ++ cs /\ err_calls cs k) /\
+  (forall buf s' w', bytes_ok buf -> ss_write s buf w = Some (s', w', ROkN (N.of_nat (length buf))) ->
+     exists cs, w_calls w' = w_calls w ++ cs /\ Forall full_accept cs) /\
+  (forall buf s' w', bytes_ok buf -> ss_write_all s buf w = Some (s', w', ROk) ->
+     exists cs, w_calls w' = w_calls w ++ cs /\ Forall benign cs) /\
+  (forall frags s' w', bytes_ok (concat frags) -> ss_write_fmt s frags w = Some (s', w', ROk) ->
+     exists cs, w_calls w' = w_calls w ++ cs /\ Forall benign cs).
+Proof. exact error_kind_preserved. Qed.
+
+(* std's write_all on the inner writer itself (used by write_all / write_fmt): its
+   fuel suffices, Ok = everything delivered, Err = a prefix delivered + error origin *)
+Theorem c06_inner_write_all :
+  forall w buf w1 r, w_write_all w buf = (w1, r) -> w_write_all_post w buf w1 r.
+Proof. exact w_write_all_spec. Qed.
+
+(* finite fact used by the simulation behind kept = spec_strip: the generated table is
+   the by-range VT model (complete enumeration of states x 256 bytes) *)
 Theorem c06_table_is_williams :
   forall s b, b < 256 -> trans_matches s b = true.
 Proof. exact table_is_williams. Qed.
+
+(* non-vacuity: "ab ESC[0m Z" against [Accept 2; Fail Interrupted]: the second piece
+   fails after the first was delivered, write answers Ok(6), the protocol resubmits
+   "Z" and ends with everything delivered exactly once *)
+Theorem c06_example :
+  (exists s' w', ss_write sb_new [97; 98; 27; 91; 48; 109; 90] (writer_of [Accept 2; Fail Interrupted])
+                 = Some (s', w', ROkN 6) /\ w_received w' = [97; 98]) /\
+  (exists s' w', ss_drive_all [Accept 2; Fail Interrupted] [97; 98; 27; 91; 48; 109; 90]
+                 = Some (s', w', ROk) /\ w_received w' = [97; 98; 90]) /\
+  (exists w', ss_write sb_new [97; 98; 27; 91; 48; 109; 90] (writer_of [Fail WouldBlock])
+              = Some (sb_new, w', RErr WouldBlock) /\ w_received w' = []) /\
+  spec_strip [97; 98; 27; 91; 48; 109; 90] = [97; 98; 90].
+Proof. vm_compute. repeat split; repeat eexists. Qed.
